@@ -112,6 +112,15 @@ pub struct World {
     suppliers_seen: BTreeMap<(usize, usize, u64), BTreeSet<usize>>,
     /// an actor the harness itself introduced (C10's marker changesets): not part of the model
     pub ignore_actor: Option<ActorId>,
+    /// (table, pk) -> causal length of a delete -> nodes that wrote it locally (known finding
+    /// C01-concurrent-deletes-declared-empty-crosswise: two nodes deleting a row with the same causal length)
+    pub delete_writers: BTreeMap<(String, Vec<u8>), BTreeMap<i64, BTreeSet<usize>>>,
+}
+
+pub const KF_CONCURRENT_DELETES: &str = "C01-concurrent-deletes-declared-empty-crosswise";
+
+fn pk_cols(table: &str) -> usize {
+    if table == "pair" { 2 } else { 1 }
 }
 
 pub fn infra(e: SimErr) -> Fail {
@@ -166,6 +175,7 @@ impl World {
             expected_triggers: BTreeSet::new(),
             suppliers_seen: BTreeMap::new(),
             ignore_actor: None,
+            delete_writers: BTreeMap::new(),
         })
     }
 
@@ -206,6 +216,15 @@ impl World {
             Changeset::Full { version, .. } => self.models[dst].get(&origin).is_some_and(|m| m.held.contains(&version.0)),
             _ => true,
         };
+        // a chunk all of whose sequences were received before is ignored by the node as a whole
+        // (BookedVersions::contains_all), even when this copy carries rows the earlier copy did not (a later
+        // transaction of the origin overwrote them in between: both copies are the version)
+        let range_known_before = match c {
+            Changeset::Full { version, seqs, .. } => {
+                self.models[dst].get(&origin).and_then(|m| m.partial.get(&version.0)).is_some_and(|p| p.gaps(&(seqs.start().0..=seqs.end().0)).next().is_none())
+            }
+            _ => false,
+        };
         let m = self.models[dst].entry(origin).or_default();
         if let Some(v) = m.on_deliver(c) {
             self.stats.became_covered += 1;
@@ -218,7 +237,7 @@ impl World {
                     if !changes.is_empty() {
                         self.shadow_apply(dst, changes, *ts);
                     }
-                } else {
+                } else if !range_known_before {
                     let b = self.chunk_buf.entry((dst, origin, version.0)).or_default();
                     for ch in changes {
                         b.entry((ch.seq.0, ch.table.to_string(), ch.pk.clone(), ch.cid.to_string())).or_insert_with(|| (ch.clone(), *ts));
@@ -265,6 +284,7 @@ impl World {
             }
             if c.cid.is_crsql_sentinel() && c.cl % 2 == 0 {
                 self.stats.deletes += 1;
+                self.delete_writers.entry((c.table.to_string(), c.pk.clone())).or_default().entry(c.cl).or_default().insert(node);
             }
         }
         if chunks.len() >= 2 {
@@ -369,6 +389,13 @@ impl World {
             }
         }
         self.nodes[dst].drain_apply_now();
+        if std::env::var_os("KVERIF_TRACE").is_some() {
+            for o in 0..self.n() {
+                if o != dst {
+                    eprintln!("      node {dst} about n{o}: {}; pending {}", self.nodes[dst].partials_repr(self.actor(o)).await, self.nodes[dst].pending_apply.len());
+                }
+            }
+        }
         Ok(())
     }
 
@@ -486,12 +513,19 @@ impl World {
             eff.skipped = true;
             return Ok(0);
         }
-        let chosen: Vec<(ActorId, u64)> = if all { pending } else { vec![pending[which as usize % pending.len()]] };
+        let chosen: Vec<(ActorId, u64)> = if all { pending.clone() } else { vec![pending[which as usize % pending.len()]] };
+        if std::env::var_os("KVERIF_TRACE").is_some() {
+            let name = |p: &(ActorId, u64)| format!("n{}v{}", self.actor_idx.get(&p.0).copied().unwrap_or(99), p.1);
+            eprintln!("   apply on {node}: pending {:?} chosen {:?}", pending.iter().map(name).collect::<Vec<_>>(), chosen.iter().map(name).collect::<Vec<_>>());
+        }
         let mut n = 0;
         for (actor, v) in chosen {
             let origin = *self.actor_idx.get(&actor).ok_or_else(|| Fail::new("trigger-known-actor", format!("apply trigger for unknown actor {actor}")))?;
             let _applied = self.nodes[node].apply(actor, v).await.map_err(|e| Fail::new("apply-buffered-succeeds", e.0))?;
             n += 1;
+            if std::env::var_os("KVERIF_TRACE").is_some() {
+                eprintln!("      applied n{origin}v{v}: rows impacted {_applied}; node {node} about n{origin}: {}; {}", self.nodes[node].partials_repr(actor).await, self.nodes[node].buffer_leftovers().await.map_err(infra)?);
+            }
             let m = self.models[node].entry(origin).or_default();
             if m.ambiguous(v) && !m.held.contains(&v) {
                 m.undetermined.insert(v);
@@ -603,7 +637,7 @@ impl World {
                 let _ = self.nodes[nd].wait_trigger(actor, v, Duration::from_millis(20)).await;
                 continue;
             }
-            let ok = self.nodes[nd].wait_trigger(actor, v, Duration::from_secs(4)).await;
+            let ok = self.nodes[nd].wait_trigger(actor, v, Duration::from_secs(10)).await;
             ensure!(ok, "covered-version-is-scheduled-for-apply", "node {nd}: v{v} of node {origin} is completely buffered but no apply was scheduled within 10s");
         }
         Ok(())
@@ -617,6 +651,12 @@ impl World {
             let mut progressed = false;
             for i in 0..n {
                 self.await_expected_triggers(i).await?;
+                // scheduling only (no verdict): a version the node itself regards as completely buffered gets its
+                // trigger from a spawned task - a fair schedule runs the apply step after it arrived, also where the
+                // model makes no demand because suppliers declared different last_seq
+                for (a, v) in self.nodes[i].complete_partials().await {
+                    let _ = self.nodes[i].wait_trigger(a, v, Duration::from_secs(2)).await;
+                }
                 let mut eff = Effects::default();
                 if self.apply(i, true, 0, &mut eff).await? > 0 {
                     progressed = true;
@@ -633,6 +673,9 @@ impl World {
                         progressed = true;
                     }
                 }
+            }
+            if std::env::var_os("KVERIF_TRACE").is_some() {
+                eprintln!("   quiesce round {round}: progressed={progressed}");
             }
             if !progressed {
                 // one last maintenance pass
@@ -738,6 +781,12 @@ impl World {
         Ok(())
     }
 
+    /// two different nodes deleted this row locally with the same causal length (signature of the known
+    /// finding KF_CONCURRENT_DELETES: each holder declares the other's delete version empty)
+    pub fn deleted_concurrently(&self, row: &(String, Vec<u8>)) -> bool {
+        self.delete_writers.get(row).is_some_and(|by_cl| by_cl.values().any(|nodes| nodes.len() >= 2))
+    }
+
     /// C01: at the fix-point all replicas equal each other and the reference, per cell too
     pub async fn check_converged(&self) -> Result<(), Fail> {
         let want_t = self.reference.tables().map_err(infra)?;
@@ -745,11 +794,31 @@ impl World {
         let mut heads: Option<Vec<(usize, u64)>> = None;
         for i in 0..self.n() {
             let t = self.nodes[i].dump_tables().await.map_err(infra)?;
-            ensure!(t == want_t, "tables-equal-merge-of-all-acknowledged", "node {i} differs from the reference replica:\n node {}\n ref  {}", sim::tables_repr(&t), sim::tables_repr(&want_t));
+            if t != want_t {
+                // rows that differ, by packed primary key
+                let mut rows: Vec<(String, Vec<u8>)> = vec![];
+                for name in t.keys().chain(want_t.keys()).collect::<BTreeSet<_>>() {
+                    let (a, b) = (t.get(name).cloned().unwrap_or_default(), want_t.get(name).cloned().unwrap_or_default());
+                    for r in a.iter().filter(|r| !b.contains(r)).chain(b.iter().filter(|r| !a.contains(r))) {
+                        let pk = klukai_types::pubsub::pack_columns(&r[..pk_cols(name).min(r.len())]).unwrap_or_default();
+                        rows.push((name.clone(), pk));
+                    }
+                }
+                let mut f = Fail::new("tables-equal-merge-of-all-acknowledged", format!("node {i} differs from the reference replica:\n node {}\n ref  {}", sim::tables_repr(&t), sim::tables_repr(&want_t)));
+                if !rows.is_empty() && rows.iter().all(|r| self.deleted_concurrently(r)) {
+                    f = f.finding(KF_CONCURRENT_DELETES);
+                }
+                return Err(f);
+            }
             let c = self.nodes[i].dump_cells().await.map_err(infra)?;
             if c != want_c {
+                let differing: Vec<&sim::Cell> = c.iter().filter(|x| !want_c.contains(x)).chain(want_c.iter().filter(|x| !c.contains(x))).collect();
                 let diff: Vec<String> = c.iter().filter(|x| !want_c.contains(x)).take(4).map(|x| format!("{x:?}")).chain(want_c.iter().filter(|x| !c.contains(x)).take(4).map(|x| format!("ref:{x:?}"))).collect();
-                return Err(Fail::new("cells-equal-merge-of-all-acknowledged", format!("node {i}: per-cell CRDT state differs from the reference: {diff:?}")));
+                let mut f = Fail::new("cells-equal-merge-of-all-acknowledged", format!("node {i}: per-cell CRDT state differs from the reference: {diff:?}"));
+                if differing.iter().all(|x| self.deleted_concurrently(&(x.table.clone(), x.pk.clone()))) {
+                    f = f.finding(KF_CONCURRENT_DELETES);
+                }
+                return Err(f);
             }
             let st = self.nodes[i].sync_state().await;
             ensure!(st.need.is_empty() && st.partial_need.is_empty(), "nothing-needed-at-fix-point", "node {i} still lists need {:?} partial_need {:?}", st.need, st.partial_need);
